@@ -16,14 +16,29 @@
 //!               A5 = rc(counts) through the whole chain    B5 = rc(counts through the whole chain)
 //!   c10mirror <rows> <bits rows*5> <L> <syms…> <i>
 //!            -> <score of m at i of s> <score of rc(m) at L-M-i of rc(s)>
+//!
+//! Alternative entry points (oracle only; case lines and answers unchanged): on the cases whose line
+//! hash is even the matrices are also reached through their other constructors (from_sequences,
+//! collect, FrequencyMatrix::new, WeightMatrix::from(ScoringMatrix), rescale, into_scoring,
+//! ScoringMatrix::from(WeightMatrix), clone) and their reverse complement must be the same; see `*_alt`.
 use crate::c09::*;
 use crate::out::*;
 use crate::rng::Rng;
 use crate::Cfg;
+use lightmotif::abc::Alphabet;
 use lightmotif::abc::Background;
+use lightmotif::abc::ComplementableAlphabet;
+use lightmotif::abc::ComplementableSymbol;
 use lightmotif::abc::Dna;
+use lightmotif::abc::Nucleotide;
+use lightmotif::abc::Symbol;
+use lightmotif::dense::DenseMatrix;
 use lightmotif::pwm::CountMatrix;
+use lightmotif::pwm::FrequencyMatrix;
 use lightmotif::pwm::ScoringMatrix;
+use lightmotif::pwm::WeightMatrix;
+use lightmotif::seq::EncodedSequence;
+use std::sync::atomic::Ordering;
 
 const K: usize = 5;
 /// the complement by the property text: A<->T, C<->G, N<->N on indices A C T G N
@@ -67,7 +82,7 @@ fn symmetric(v: &[f64]) -> bool {
     (0..K).all(|j| v[j] == v[COMPL[j]])
 }
 
-fn rc_case(t: &mut Tok) -> Verdict {
+fn rc_main(t: &mut Tok) -> Verdict {
     let kind = t.next();
     let rows = t.nat();
     if kind == "c" {
@@ -120,7 +135,7 @@ fn rc_case(t: &mut Tok) -> Verdict {
     }
 }
 
-fn rcf_case(t: &mut Tok) -> Verdict {
+fn rcf_main(t: &mut Tok) -> Verdict {
     let rows = t.nat();
     let counts: Vec<u32> = t.nats(rows * K).iter().map(|x| *x as u32).collect();
     let p = parse_pseudo(t, K);
@@ -164,7 +179,7 @@ fn rcf_case(t: &mut Tok) -> Verdict {
     }
 }
 
-fn comm_case(t: &mut Tok) -> Verdict {
+fn comm_main(t: &mut Tok) -> Verdict {
     let rows = t.nat();
     let counts: Vec<u32> = t.nats(rows * K).iter().map(|x| *x as u32).collect();
     let p = parse_pseudo(t, K);
@@ -234,7 +249,7 @@ fn comm_case(t: &mut Tok) -> Verdict {
     }
 }
 
-fn mirror_case(t: &mut Tok) -> Verdict {
+fn mirror_main(t: &mut Tok) -> Verdict {
     let rows = t.nat();
     let d = t.f32s(rows * K);
     let l = t.nat();
@@ -258,7 +273,13 @@ fn mirror_case(t: &mut Tok) -> Verdict {
             let want: f64 = (0..rows).map(|j| d[j * K + s[i + j]] as f64).sum();
             let eps = (rows as f64 + 1.0) * (f32::EPSILON as f64) * mag + 1e-30;
             let (xf, yf) = (x as f64, y as f64);
-            let o = if want.is_nan() {
+            // finite entries whose partial sums overflow single precision (f32::MAX next to each other, or next
+            // to an infinite entry): the two summation orders legitimately end in -inf / +inf / NaN; outside
+            // "up to floating-point", as in C09's score clause
+            let overflow = (0..rows).map(|j| d[j * K + s[i + j]]).any(|v| v.is_finite() && v.abs() > 1e30);
+            let o = if overflow {
+                Ok(())
+            } else if want.is_nan() {
                 if x.is_nan() && y.is_nan() { Ok(()) } else { Err(format!("NaN window: {} vs {}", x, y)) }
             } else if want.is_infinite() {
                 if xf == want && yf == want { Ok(()) } else { Err(format!("infinite window {}: {} vs {}", want, x, y)) }
@@ -270,6 +291,286 @@ fn mirror_case(t: &mut Tok) -> Verdict {
             (format!("{} {}", fb(x), fb(y)), Some(o), nontrivial)
         }
     }
+}
+
+// ------------------------------------------------------------------------------------ alternative entry points
+
+/// `ComplementableAlphabet::complement` (what the matrices use), `ComplementableSymbol::complement`
+/// (what a caller holding a symbol uses) and the property text agree, on every symbol
+fn complement_alt() -> Result<(), String> {
+    let syms = Dna::symbols();
+    if syms.len() != K {
+        return Err(format!("Dna::symbols() has {} symbols", syms.len()));
+    }
+    for (j, s) in syms.iter().enumerate() {
+        let a = <Dna as ComplementableAlphabet>::complement(*s);
+        let b = ComplementableSymbol::complement(s);
+        let c = Nucleotide::complement(s);
+        if s.as_index() != j || a.as_index() != COMPL[j] || b != a || c != a {
+            return Err(format!("complement of symbol {}: alphabet {} / symbol {} but the property says {}", j, a.as_index(), b.as_index(), COMPL[j]));
+        }
+        if b.complement() != *s {
+            return Err(format!("complement is not an involution on symbol {}", j));
+        }
+    }
+    Ok(())
+}
+
+fn want_rc<T: CellKey>(what: &str, rows: usize, src: &DenseMatrix<T, <Dna as Alphabet>::K>, rc: &DenseMatrix<T, <Dna as Alphabet>::K>) -> Result<(), String> {
+    if rc.rows() != rows || mkeys::<T, Dna>(rc) != keys(&spec_rc(rows, &flat::<T, Dna>(src))) {
+        return Err(format!("reverse_complement of a {} is not row reversal + complement permutation", what));
+    }
+    Ok(())
+}
+
+fn rc_alt(line: &str) -> Result<(), String> {
+    complement_alt()?;
+    let mut t = Tok::new(line);
+    t.next();
+    let kind = t.next();
+    let rows = t.nat();
+    if kind == "c" {
+        let counts: Vec<u32> = t.nats(rows * K).iter().map(|x| *x as u32).collect();
+        let c = CountMatrix::<Dna>::new(dense::<u32, Dna>(rows, &counts)).unwrap();
+        let r = c.reverse_complement();
+        crate::c09_accessors!(Dna, u32, CountMatrix, r);
+        want_rc("clone of a CountMatrix", rows, c.matrix(), c.clone().reverse_complement().matrix())?;
+        if c.clone().reverse_complement() != r {
+            return Err("reverse_complement of a clone differs (PartialEq)".into());
+        }
+        // the number of sequences is a field of its own, not the row total: three empty sequences
+        let empty = CountMatrix::<Dna>::from_sequences(vec![encoded::<Dna>(&[]); 3]).map_err(|_| "from_sequences rejects empty sequences".to_string())?;
+        if empty.reverse_complement().sequence_count() != 3 || empty.reverse_complement() != empty {
+            return Err("reverse_complement of the CountMatrix of three empty sequences: sequence_count is not 3".into());
+        }
+        // counts of aligned sequences: the matrix reached through from_sequences / collect(), and the
+        // matrix of the reverse-complemented sequences
+        let sums: Vec<usize> = (0..rows).map(|i| counts[i * K..(i + 1) * K].iter().map(|x| *x as usize).sum()).collect();
+        let n = if rows == 0 { 3 } else { sums[0] };
+        if n >= 1 && n <= 64 && sums.iter().all(|x| *x == n) {
+            // column i of sequence j: the symbols of row i in order, rotated by i
+            let cols: Vec<Vec<usize>> = (0..rows).map(|i| (0..K).flat_map(|a| std::iter::repeat(a).take(counts[i * K + a] as usize)).collect()).collect();
+            let seqs: Vec<Vec<usize>> = (0..n).map(|j| (0..rows).map(|i| cols[i][(j + i) % n]).collect()).collect();
+            let enc: Vec<EncodedSequence<Dna>> = seqs.iter().map(|q| encoded::<Dna>(q)).collect();
+            let a = CountMatrix::<Dna>::from_sequences(enc.iter()).map_err(|_| "from_sequences rejects aligned sequences".to_string())?;
+            let b: CountMatrix<Dna> = enc.iter().cloned().collect::<Result<_, _>>().map_err(|_| "collect() rejects aligned sequences".to_string())?;
+            for (name, m) in [("from_sequences", &a), ("collect()", &b)] {
+                let rm = m.reverse_complement();
+                want_rc(&format!("CountMatrix reached through {}", name), rows, m.matrix(), rm.matrix())?;
+                if rm.sequence_count() != n || m.sequence_count() != n {
+                    return Err(format!("CountMatrix reached through {} ({} sequences): sequence_count {} after reverse_complement", name, n, rm.sequence_count()));
+                }
+                if rm.reverse_complement() != *m {
+                    return Err(format!("rc(rc(m)) != m (PartialEq) for a CountMatrix reached through {}", name));
+                }
+                if rows > 0 && rm != r {
+                    return Err(format!("reverse_complement of the CountMatrix reached through {} differs from the one of CountMatrix::new on the same counts", name));
+                }
+            }
+            let renc: Vec<EncodedSequence<Dna>> = seqs.iter().map(|q| encoded::<Dna>(&q.iter().rev().map(|x| COMPL[*x]).collect::<Vec<_>>())).collect();
+            match CountMatrix::<Dna>::from_sequences(renc) {
+                Ok(m) if m == a.reverse_complement() => {}
+                _ => return Err("the count matrix of the reverse-complemented sequences is not the reverse complement of the count matrix".into()),
+            }
+        }
+    } else {
+        let d = t.f32s(rows * K);
+        let nan = d.iter().any(|x| x.is_nan());
+        // a non-default background travels unchanged
+        let mut pm = vec![0.0f32; K];
+        pm[rows % 4] = 0.75;
+        pm[(rows + 1) % 4] = 0.25;
+        let bg = Background::<Dna>::new(garr::<f32, Dna>(&pm)).map_err(|_| "Background::new rejects 0.75 / 0.25".to_string())?;
+        let m = ScoringMatrix::<Dna>::new(bg.clone(), dense::<f32, Dna>(rows, &d));
+        let r = m.reverse_complement();
+        want_rc("ScoringMatrix over a non-default background", rows, m.matrix(), r.matrix())?;
+        if keys(r.background().frequencies()) != keys(&pm) {
+            return Err("reverse_complement of a ScoringMatrix does not keep a non-default background".into());
+        }
+        crate::c09_accessors!(Dna, f32, ScoringMatrix, r);
+        if !nan && (r.reverse_complement() != m || m.clone().reverse_complement() != r) {
+            return Err("ScoringMatrix: rc(rc(m)) != m or rc(clone) != rc(m) (PartialEq)".into());
+        }
+        // the weight matrix reached through From<ScoringMatrix>, and back through From<WeightMatrix>
+        let w = WeightMatrix::<Dna>::from(m.clone());
+        let rw = w.reverse_complement();
+        want_rc("WeightMatrix reached through From<ScoringMatrix>", rows, w.matrix(), rw.matrix())?;
+        if keys(rw.background().frequencies()) != keys(&pm) {
+            return Err("reverse_complement of a WeightMatrix reached through From<ScoringMatrix> does not keep the background".into());
+        }
+        if mkeys::<f32, Dna>(rw.matrix()) != mkeys::<f32, Dna>(WeightMatrix::<Dna>::from(r.clone()).matrix()) {
+            return Err("reverse_complement does not commute with WeightMatrix::from(ScoringMatrix)".into());
+        }
+        let s2 = ScoringMatrix::<Dna>::from(w.clone());
+        let rs2 = s2.reverse_complement();
+        want_rc("ScoringMatrix reached through From<WeightMatrix>", rows, s2.matrix(), rs2.matrix())?;
+        if mkeys::<f32, Dna>(rs2.matrix()) != mkeys::<f32, Dna>(ScoringMatrix::<Dna>::from(rw.clone()).matrix()) || keys(rs2.background().frequencies()) != keys(&pm) {
+            return Err("reverse_complement does not commute with ScoringMatrix::from(WeightMatrix)".into());
+        }
+        // the same numbers as a frequency matrix, when they pass FrequencyMatrix::new
+        if let Ok(f) = FrequencyMatrix::<Dna>::new(dense::<f32, Dna>(rows, &d)) {
+            let rf = f.reverse_complement();
+            want_rc("FrequencyMatrix reached through new", rows, f.matrix(), rf.matrix())?;
+        }
+    }
+    Ok(())
+}
+
+fn rcf_alt(line: &str) -> Result<(), String> {
+    complement_alt()?;
+    let mut t = Tok::new(line);
+    t.next();
+    let rows = t.nat();
+    let counts: Vec<u32> = t.nats(rows * K).iter().map(|x| *x as u32).collect();
+    let p = parse_pseudo(&mut t, K);
+    let bg = parse_bg(&mut t, K);
+    let background = match make_bg::<Dna>(&bg) {
+        Err(()) => return Ok(()),
+        Ok(b) => b,
+    };
+    let c = CountMatrix::<Dna>::new(dense::<u32, Dna>(rows, &counts)).unwrap();
+    let f = c.to_freq(make_pseudo::<Dna>(&p));
+    let w = f.to_weight(background.clone());
+    let rf = f.reverse_complement();
+    let rw = w.reverse_complement();
+    crate::c09_accessors!(Dna, f32, FrequencyMatrix, rf);
+    crate::c09_accessors!(Dna, f32, WeightMatrix, rw);
+    let fk = mkeys::<f32, Dna>(f.matrix());
+    if !fk.contains(&u64::MAX) {
+        if rf.reverse_complement() != f || f.clone().reverse_complement() != rf {
+            return Err("FrequencyMatrix: rc(rc(m)) != m or rc(clone) != rc(m) (PartialEq)".into());
+        }
+        if !mkeys::<f32, Dna>(w.matrix()).contains(&u64::MAX) && (rw.reverse_complement() != w || w.clone().reverse_complement() != rw) {
+            return Err("WeightMatrix: rc(rc(m)) != m or rc(clone) != rc(m) (PartialEq)".into());
+        }
+    }
+    // the same frequencies through FrequencyMatrix::new
+    if let Ok(g) = FrequencyMatrix::<Dna>::new(f.matrix().clone()) {
+        if mkeys::<f32, Dna>(g.reverse_complement().matrix()) != mkeys::<f32, Dna>(rf.matrix()) {
+            return Err("reverse_complement of FrequencyMatrix::new(same data) differs from the one of the to_freq matrix".into());
+        }
+    }
+    // weight matrices reached through rescale (to the default background and back to their own)
+    let wu = w.rescale(None);
+    let rwu = wu.reverse_complement();
+    want_rc("WeightMatrix reached through rescale(None)", rows, wu.matrix(), rwu.matrix())?;
+    if rwu.background() != wu.background() || wu.background() != &Background::<Dna>::uniform() {
+        return Err("reverse_complement of a rescaled WeightMatrix does not keep the (default) background".into());
+    }
+    let wo = w.rescale(w.background().clone());
+    if mkeys::<f32, Dna>(wo.reverse_complement().matrix()) != mkeys::<f32, Dna>(rw.matrix()) {
+        return Err("reverse_complement of rescale(own background) differs".into());
+    }
+    // scoring matrices reached through into_scoring / to_scoring / to_weight().to_scoring() / From<WeightMatrix>
+    let routes: Vec<(&str, ScoringMatrix<Dna>)> = vec![
+        ("into_scoring", f.clone().into_scoring(background.clone())),
+        ("to_scoring", f.to_scoring(background.clone())),
+        ("WeightMatrix::to_scoring", w.to_scoring()),
+        ("From<WeightMatrix>", ScoringMatrix::<Dna>::from(w.clone())),
+    ];
+    for (name, s) in &routes {
+        let rs = s.reverse_complement();
+        want_rc(&format!("ScoringMatrix reached through {}", name), rows, s.matrix(), rs.matrix())?;
+        if rs.background() != w.background() {
+            return Err(format!("reverse_complement of a ScoringMatrix reached through {} does not keep the background", name));
+        }
+        if mkeys::<f32, Dna>(rs.reverse_complement().matrix()) != mkeys::<f32, Dna>(s.matrix()) {
+            return Err(format!("rc(rc(m)) != m for a ScoringMatrix reached through {}", name));
+        }
+    }
+    // base-2 scoring does not see the background: rc commutes with WeightMatrix::to_scoring and with
+    // From<WeightMatrix>, bit for bit, on every input
+    let want = mkeys::<f32, Dna>(routes[2].1.reverse_complement().matrix());
+    if mkeys::<f32, Dna>(rw.to_scoring().matrix()) != want || mkeys::<f32, Dna>(ScoringMatrix::<Dna>::from(rw.clone()).matrix()) != want {
+        return Err("rc does not commute with WeightMatrix::to_scoring / ScoringMatrix::from(WeightMatrix)".into());
+    }
+    Ok(())
+}
+
+fn comm_alt(line: &str) -> Result<(), String> {
+    complement_alt()?;
+    let mut t = Tok::new(line);
+    t.next();
+    let rows = t.nat();
+    let counts: Vec<u32> = t.nats(rows * K).iter().map(|x| *x as u32).collect();
+    let p = parse_pseudo(&mut t, K);
+    let bg = parse_bg(&mut t, K);
+    let base = t.f32();
+    let background = match make_bg::<Dna>(&bg) {
+        Err(()) => return Ok(()),
+        Ok(b) => b,
+    };
+    let c = CountMatrix::<Dna>::new(dense::<u32, Dna>(rows, &counts)).unwrap();
+    let rc = c.reverse_complement();
+    // the pseudocounts given as f32 / array (Into) rather than as a Pseudocounts object
+    let (f, a1) = match &p {
+        Pseudo::U(x) => (c.to_freq(*x), rc.to_freq(*x)),
+        Pseudo::A(v) => (c.to_freq(garr::<f32, Dna>(v)), rc.to_freq(garr::<f32, Dna>(v))),
+    };
+    let ps = make_pseudo::<Dna>(&p);
+    if mkeys::<f32, Dna>(a1.matrix()) != mkeys::<f32, Dna>(rc.to_freq(ps.clone()).matrix()) || mkeys::<f32, Dna>(f.matrix()) != mkeys::<f32, Dna>(c.to_freq(ps).matrix()) {
+        return Err("to_freq(f32 / array) of the reverse complement differs from to_freq(Pseudocounts)".into());
+    }
+    let rf = f.reverse_complement();
+    // into_scoring (by value) on both sides of rc, against the to_scoring route of the main clause
+    let a4 = rf.clone().into_scoring(background.clone());
+    let b4 = f.clone().into_scoring(background.clone()).reverse_complement();
+    if mkeys::<f32, Dna>(a4.matrix()) != mkeys::<f32, Dna>(rf.to_scoring(background.clone()).matrix()) || mkeys::<f32, Dna>(b4.matrix()) != mkeys::<f32, Dna>(f.to_scoring(background.clone()).reverse_complement().matrix()) {
+        return Err("into_scoring differs from to_scoring around reverse_complement".into());
+    }
+    // to_scoring_with_base on a weight matrix reached through From<ScoringMatrix> commutes exactly too
+    let w = WeightMatrix::<Dna>::from(b4.clone());
+    if mkeys::<f32, Dna>(w.reverse_complement().to_scoring_with_base(base).matrix()) != mkeys::<f32, Dna>(w.to_scoring_with_base(base).reverse_complement().matrix()) {
+        return Err("rc does not commute with to_scoring_with_base on a WeightMatrix reached through From<ScoringMatrix>".into());
+    }
+    Ok(())
+}
+
+fn mirror_alt(line: &str, x: f32, y: f32) -> Result<(), String> {
+    complement_alt()?;
+    let mut t = Tok::new(line);
+    t.next();
+    let rows = t.nat();
+    let d = t.f32s(rows * K);
+    let l = t.nat();
+    let s = t.nats(l);
+    let i = t.nat();
+    let rs: Vec<usize> = s.iter().rev().map(|x| COMPL[*x]).collect();
+    let m = ScoringMatrix::<Dna>::new(Background::<Dna>::uniform(), dense::<f32, Dna>(rows, &d));
+    // the mirrored matrix reached through a clone, through the double reverse complement and through
+    // the weight matrix (From impls do not round a permutation: only the route changes)
+    let rm = m.clone().reverse_complement();
+    let rrm = rm.reverse_complement();
+    let (st, rst) = (striped::<Dna>(&s), striped::<Dna>(&rs));
+    let x2 = rrm.score_position(&st, i);
+    let y2 = rm.score_position(rst.clone(), l - rows - i);
+    let y3 = rrm.reverse_complement().score_position(&rst, l - rows - i);
+    if x2.key() != x.key() || y2.key() != y.key() || y3.key() != y.key() {
+        return Err(format!("scores through rc(clone) / rc(rc(m)) / rc(rc(rc(m))): {} {} {} but the main route gave {} {}", x2, y2, y3, x, y));
+    }
+    Ok(())
+}
+
+fn rc_case(t: &mut Tok) -> Verdict {
+    let line = t.line;
+    alt_on(rc_main(t), share(line, 2), || rc_alt(line))
+}
+
+fn rcf_case(t: &mut Tok) -> Verdict {
+    let line = t.line;
+    alt_on(rcf_main(t), share(line, 2), || rcf_alt(line))
+}
+
+fn comm_case(t: &mut Tok) -> Verdict {
+    let line = t.line;
+    alt_on(comm_main(t), share(line, 2), || comm_alt(line))
+}
+
+fn mirror_case(t: &mut Tok) -> Verdict {
+    let line = t.line;
+    let v = mirror_main(t);
+    let xy: Vec<f32> = v.0.split(' ').filter(|_| v.0 != "panic").map(|x| if x == "nan" { f32::NAN } else { f32::from_bits(x.parse().unwrap()) }).collect();
+    alt_on(v, share(line, 2), || mirror_alt(line, xy[0], xy[1]))
 }
 
 pub fn exec(line: &str) -> Verdict {
@@ -393,6 +694,7 @@ pub fn run(cfg: &Cfg) {
     });
     let mut out = Out::new(&cfg.out);
     for c in &cases {
+        let alt0 = ALT.load(Ordering::Relaxed);
         let (ans, o, nt) = match std::panic::catch_unwind(|| exec(c)) {
             Ok(v) => v,
             Err(e) => {
@@ -405,6 +707,9 @@ pub fn run(cfg: &Cfg) {
         out.stat(if ans == "panic" { "outcome/panic" } else if ans == "bgerr" { "outcome/rejected" } else { "outcome/ok" });
         if ans == "panic" {
             out.panics += 1;
+        }
+        if ALT.load(Ordering::Relaxed) != alt0 {
+            out.stat("alternative-entry-points");
         }
         out.case(c, &ans, o, nt);
     }
